@@ -840,7 +840,7 @@ Proof. destruct t, f; try discriminate; intros _; unfold TFid; field. Qed.
 
 (* the proved absolute bound, by the to_kelvin functions of the two units:
    |there-and-back - v| <= 2^-53 * (1 + 1/1024) * (A * |v| + B) *)
-Definition temp_A (ta tb : tempfn) : R :=
+Definition temp_AZ (ta tb : tempfn) : Z :=
   match ta, tb with
   | TF_kelvin_to_kelvin, TF_kelvin_to_kelvin => 0
   | TF_kelvin_to_kelvin, TF_celsius_to_kelvin | TF_celsius_to_kelvin, TF_kelvin_to_kelvin => 2
@@ -849,8 +849,9 @@ Definition temp_A (ta tb : tempfn) : R :=
   | TF_celsius_to_kelvin, TF_fahrenheit_to_kelvin | TF_fahrenheit_to_kelvin, TF_celsius_to_kelvin => 10
   | TF_fahrenheit_to_kelvin, TF_fahrenheit_to_kelvin => 16
   | _, _ => 0
-  end.
-Definition temp_B (ta tb : tempfn) : R :=
+  end%Z.
+Definition temp_A (ta tb : tempfn) : R := IZR (temp_AZ ta tb).
+Definition temp_BZ (ta tb : tempfn) : Z :=
   match ta, tb with
   | TF_kelvin_to_kelvin, TF_kelvin_to_kelvin => 0
   | TF_kelvin_to_kelvin, TF_celsius_to_kelvin | TF_celsius_to_kelvin, TF_kelvin_to_kelvin => 274
@@ -861,7 +862,8 @@ Definition temp_B (ta tb : tempfn) : R :=
   | TF_fahrenheit_to_kelvin, TF_celsius_to_kelvin => 5205
   | TF_fahrenheit_to_kelvin, TF_fahrenheit_to_kelvin => 11521
   | _, _ => 0
-  end.
+  end%Z.
+Definition temp_B (ta tb : tempfn) : R := IZR (temp_BZ ta tb).
 Definition temp_bound (ta tb : tempfn) (a : R) : R := u53 * (1 + / 1024) * (temp_A ta tb * a + temp_B ta tb).
 
 Lemma apx_weaken X i d d' : apx X i d -> d <= d' -> apx X i d'.
@@ -896,7 +898,7 @@ Proof.
               TFd fa d3 M1 a <= temp_bound ta tb a).
   { clear P1 P2 P3 P4 HX.
     destruct ta, fa; try discriminate Ia; destruct tb, fb; try discriminate Ib;
-      unfold TFd, TFM, temp_bound, temp_A, temp_B, stp in *; rewrite ?u53_val in *; unfold c273 in *;
+      unfold TFd, TFM, temp_bound, temp_A, temp_B, temp_AZ, temp_BZ, stp in *; rewrite ?u53_val in *; unfold c273 in *;
       (repeat split); lra. }
   destruct N as [N1 [N2 [N3 [S1 [S2 [S3 [S4 NB]]]]]]].
   assert (A0 : apx X v 0).
@@ -917,8 +919,8 @@ Proof. destruct x; simpl; try contradiction. intros H. split; [exact H|reflexivi
 Lemma temp_bound_nonneg ta tb a : 0 <= a -> 0 <= temp_bound ta tb a.
 Proof.
   intros Ha. unfold temp_bound. pose proof u53_lt1.
-  assert (0 <= temp_A ta tb) by (destruct ta, tb; simpl; lra).
-  assert (0 <= temp_B ta tb) by (destruct ta, tb; simpl; lra).
+  assert (0 <= temp_A ta tb) by (destruct ta, tb; unfold temp_A, temp_AZ; lra).
+  assert (0 <= temp_B ta tb) by (destruct ta, tb; unfold temp_B, temp_BZ; lra).
   apply Rmult_le_pos; [apply Rmult_le_pos; lra|]. apply Rplus_le_le_0_compat; [apply Rmult_le_pos|]; assumption.
 Qed.
 
@@ -1073,3 +1075,200 @@ Proof.
   destruct (linear_in_ranges ua ub la lb v (- Kv, Kv)%Z Ha Hb Fa Fb Fv Wv OK) as [R1 [R2 [R3 R4]]].
   exact (there_and_back_float_linear ua ub la lb v Ha Hb Fv Fa Fb R1 R2 R3 R4).
 Qed.
+
+(* ================================================================ 5b. composition for the temperature kind:
+   fl(A->B->C) and fl(A->C) both approximate the same ideal value; the bound is the sum of the two accumulated errors.
+   [tcomp_bound ta tb tc a] = 2^-53 * (1 + 1/1024) * (A * a + B), (A, B) by the to_kelvin functions of A, B, C *)
+Definition tcomp_AZ (ta tb tc : tempfn) : Z :=
+  match ta, tb, tc with
+  | TF_kelvin_to_kelvin, TF_kelvin_to_kelvin, TF_kelvin_to_kelvin => 0
+  | TF_kelvin_to_kelvin, TF_kelvin_to_kelvin, TF_celsius_to_kelvin => 2
+  | TF_kelvin_to_kelvin, TF_kelvin_to_kelvin, TF_fahrenheit_to_kelvin => 15
+  | TF_kelvin_to_kelvin, TF_celsius_to_kelvin, TF_kelvin_to_kelvin => 2
+  | TF_kelvin_to_kelvin, TF_celsius_to_kelvin, TF_celsius_to_kelvin => 4
+  | TF_kelvin_to_kelvin, TF_celsius_to_kelvin, TF_fahrenheit_to_kelvin => 18
+  | TF_kelvin_to_kelvin, TF_fahrenheit_to_kelvin, TF_kelvin_to_kelvin => 8
+  | TF_kelvin_to_kelvin, TF_fahrenheit_to_kelvin, TF_celsius_to_kelvin => 10
+  | TF_kelvin_to_kelvin, TF_fahrenheit_to_kelvin, TF_fahrenheit_to_kelvin => 29
+  | TF_celsius_to_kelvin, TF_kelvin_to_kelvin, TF_kelvin_to_kelvin => 2
+  | TF_celsius_to_kelvin, TF_kelvin_to_kelvin, TF_celsius_to_kelvin => 4
+  | TF_celsius_to_kelvin, TF_kelvin_to_kelvin, TF_fahrenheit_to_kelvin => 18
+  | TF_celsius_to_kelvin, TF_celsius_to_kelvin, TF_kelvin_to_kelvin => 4
+  | TF_celsius_to_kelvin, TF_celsius_to_kelvin, TF_celsius_to_kelvin => 6
+  | TF_celsius_to_kelvin, TF_celsius_to_kelvin, TF_fahrenheit_to_kelvin => 22
+  | TF_celsius_to_kelvin, TF_fahrenheit_to_kelvin, TF_kelvin_to_kelvin => 10
+  | TF_celsius_to_kelvin, TF_fahrenheit_to_kelvin, TF_celsius_to_kelvin => 12
+  | TF_celsius_to_kelvin, TF_fahrenheit_to_kelvin, TF_fahrenheit_to_kelvin => 33
+  | TF_fahrenheit_to_kelvin, TF_kelvin_to_kelvin, TF_kelvin_to_kelvin => 5
+  | TF_fahrenheit_to_kelvin, TF_kelvin_to_kelvin, TF_celsius_to_kelvin => 6
+  | TF_fahrenheit_to_kelvin, TF_kelvin_to_kelvin, TF_fahrenheit_to_kelvin => 16
+  | TF_fahrenheit_to_kelvin, TF_celsius_to_kelvin, TF_kelvin_to_kelvin => 6
+  | TF_fahrenheit_to_kelvin, TF_celsius_to_kelvin, TF_celsius_to_kelvin => 7
+  | TF_fahrenheit_to_kelvin, TF_celsius_to_kelvin, TF_fahrenheit_to_kelvin => 18
+  | TF_fahrenheit_to_kelvin, TF_fahrenheit_to_kelvin, TF_kelvin_to_kelvin => 9
+  | TF_fahrenheit_to_kelvin, TF_fahrenheit_to_kelvin, TF_celsius_to_kelvin => 10
+  | TF_fahrenheit_to_kelvin, TF_fahrenheit_to_kelvin, TF_fahrenheit_to_kelvin => 24
+  | _, _, _ => 0
+  end%Z.
+Definition tcomp_A (ta tb tc : tempfn) : R := IZR (tcomp_AZ ta tb tc).
+Definition tcomp_BZ (ta tb tc : tempfn) : Z :=
+  match ta, tb, tc with
+  | TF_kelvin_to_kelvin, TF_kelvin_to_kelvin, TF_kelvin_to_kelvin => 1
+  | TF_kelvin_to_kelvin, TF_kelvin_to_kelvin, TF_celsius_to_kelvin => 547
+  | TF_kelvin_to_kelvin, TF_kelvin_to_kelvin, TF_fahrenheit_to_kelvin => 3998
+  | TF_kelvin_to_kelvin, TF_celsius_to_kelvin, TF_kelvin_to_kelvin => 274
+  | TF_kelvin_to_kelvin, TF_celsius_to_kelvin, TF_celsius_to_kelvin => 820
+  | TF_kelvin_to_kelvin, TF_celsius_to_kelvin, TF_fahrenheit_to_kelvin => 4490
+  | TF_kelvin_to_kelvin, TF_fahrenheit_to_kelvin, TF_kelvin_to_kelvin => 2037
+  | TF_kelvin_to_kelvin, TF_fahrenheit_to_kelvin, TF_celsius_to_kelvin => 2584
+  | TF_kelvin_to_kelvin, TF_fahrenheit_to_kelvin, TF_fahrenheit_to_kelvin => 7664
+  | TF_celsius_to_kelvin, TF_kelvin_to_kelvin, TF_kelvin_to_kelvin => 547
+  | TF_celsius_to_kelvin, TF_kelvin_to_kelvin, TF_celsius_to_kelvin => 1640
+  | TF_celsius_to_kelvin, TF_kelvin_to_kelvin, TF_fahrenheit_to_kelvin => 8915
+  | TF_celsius_to_kelvin, TF_celsius_to_kelvin, TF_kelvin_to_kelvin => 1367
+  | TF_celsius_to_kelvin, TF_celsius_to_kelvin, TF_celsius_to_kelvin => 2459
+  | TF_celsius_to_kelvin, TF_celsius_to_kelvin, TF_fahrenheit_to_kelvin => 10390
+  | TF_celsius_to_kelvin, TF_fahrenheit_to_kelvin, TF_kelvin_to_kelvin => 4769
+  | TF_celsius_to_kelvin, TF_fahrenheit_to_kelvin, TF_celsius_to_kelvin => 5861
+  | TF_celsius_to_kelvin, TF_fahrenheit_to_kelvin, TF_fahrenheit_to_kelvin => 16514
+  | TF_fahrenheit_to_kelvin, TF_kelvin_to_kelvin, TF_kelvin_to_kelvin => 689
+  | TF_fahrenheit_to_kelvin, TF_kelvin_to_kelvin, TF_celsius_to_kelvin => 1817
+  | TF_fahrenheit_to_kelvin, TF_kelvin_to_kelvin, TF_fahrenheit_to_kelvin => 9427
+  | TF_fahrenheit_to_kelvin, TF_celsius_to_kelvin, TF_kelvin_to_kelvin => 1544
+  | TF_fahrenheit_to_kelvin, TF_celsius_to_kelvin, TF_celsius_to_kelvin => 2672
+  | TF_fahrenheit_to_kelvin, TF_celsius_to_kelvin, TF_fahrenheit_to_kelvin => 10966
+  | TF_fahrenheit_to_kelvin, TF_fahrenheit_to_kelvin, TF_kelvin_to_kelvin => 5053
+  | TF_fahrenheit_to_kelvin, TF_fahrenheit_to_kelvin, TF_celsius_to_kelvin => 6181
+  | TF_fahrenheit_to_kelvin, TF_fahrenheit_to_kelvin, TF_fahrenheit_to_kelvin => 17282
+  | _, _, _ => 0
+  end%Z.
+Definition tcomp_B (ta tb tc : tempfn) : R := IZR (tcomp_BZ ta tb tc).
+Definition tcomp_bound (ta tb tc : tempfn) (a : R) : R := u53 * (1 + / 1024) * (tcomp_A ta tb tc * a + tcomp_B ta tb tc).
+
+Lemma temp_comp_chain ta fa tb fb tc fc X v :
+  isB X v -> inverse_pair ta fa = true -> inverse_pair tb fb = true -> inverse_pair tc fc = true ->
+  Rabs v <= bpow radix2 1000 ->
+  exists r s,
+    isB (tempfn_apply fl fc (tempfn_apply fl tb (tempfn_apply fl fb (tempfn_apply fl ta X)))) r /\
+    isB (tempfn_apply fl fc (tempfn_apply fl ta X)) s /\
+    Rabs (r - s) <= tcomp_bound ta tb tc (Rabs v).
+Proof.
+  intros HX Ia Ib Ic Hv.
+  set (a := Rabs v) in *.
+  assert (Ha : 0 <= a) by apply Rabs_pos.
+  pose proof eta_small as He.
+  assert (HT : Tmax = bpow radix2 1000 * 8388608).
+  { unfold Tmax. change 1023%Z with (1000 + 23)%Z. rewrite bpow_plus. f_equal; simpl; try reflexivity; lra. }
+  assert (HV : 1267650600228229401496703205376 <= bpow radix2 1000).
+  { assert (bpow radix2 100 <= bpow radix2 1000) by (apply bpow_le; discriminate).
+    simpl (bpow radix2 100) in *. lra. }
+  set (V := bpow radix2 1000) in *.
+  remember (TFM ta a) as M1 eqn:EM1. remember (TFM fb M1) as M2 eqn:EM2. remember (TFM fc M1) as M3 eqn:EM3.
+  assert (P1 : Rabs (TFid ta v) <= M1) by (subst M1; apply TFM_ok; apply Rle_refl).
+  assert (P2 : Rabs (TFid fb (TFid ta v)) <= M2) by (subst M2; apply TFM_ok; exact P1).
+  assert (P3 : Rabs (TFid tb (TFid fb (TFid ta v))) <= M1) by (rewrite (TF_inv2 tb fb) by exact Ib; exact P1).
+  assert (P4 : Rabs (TFid fc (TFid tb (TFid fb (TFid ta v)))) <= M3).
+  { rewrite (TF_inv2 tb fb) by exact Ib. subst M3. apply TFM_ok. exact P1. }
+  assert (P5 : Rabs (TFid fc (TFid ta v)) <= M3) by (subst M3; apply TFM_ok; exact P1).
+  remember (TFd ta 0 a M1) as d1 eqn:E1. remember (TFd fb d1 M1 M2) as d2 eqn:E2.
+  remember (TFd tb d2 M2 M1) as d3 eqn:E3.
+  assert (N : 0 <= d1 /\ 0 <= d2 /\ 0 <= d3 /\
+              M1 + 64 * (a + 0) + 16384 <= Tmax /\ M2 + 64 * (M1 + d1) + 16384 <= Tmax /\
+              M1 + 64 * (M2 + d2) + 16384 <= Tmax /\ M3 + 64 * (M1 + d3) + 16384 <= Tmax /\
+              M3 + 64 * (M1 + d1) + 16384 <= Tmax /\
+              TFd fc d3 M1 M3 + TFd fc d1 M1 M3 <= tcomp_bound ta tb tc a).
+  { clear P1 P2 P3 P4 P5 HX.
+    destruct ta, fa; try discriminate Ia; destruct tb, fb; try discriminate Ib; destruct tc, fc; try discriminate Ic;
+      unfold TFd, TFM, tcomp_bound, tcomp_A, tcomp_B, tcomp_AZ, tcomp_BZ, stp in *; rewrite ?u53_val in *; unfold c273 in *;
+      (repeat split); lra. }
+  destruct N as [N1 [N2 [N3 [S1 [S2 [S3 [S4 [S5 NB]]]]]]]].
+  assert (A0 : apx X v 0).
+  { exists v. split; [exact HX|]. replace (v - v) with 0 by ring. rewrite Rabs_R0. lra. }
+  pose proof (tf_spec ta X v 0 a M1 A0 (Rle_refl a) P1 (Rle_refl 0) S1) as T1. rewrite <- E1 in T1.
+  pose proof (tf_spec fb _ _ d1 M1 M2 T1 P1 P2 N1 S2) as T2. rewrite <- E2 in T2.
+  pose proof (tf_spec tb _ _ d2 M2 M1 T2 P2 P3 N2 S3) as T3. rewrite <- E3 in T3.
+  pose proof (tf_spec fc _ _ d3 M1 M3 T3 P3 P4 N3 S4) as T4.
+  pose proof (tf_spec fc _ _ d1 M1 M3 T1 P1 P5 N1 S5) as T5.
+  rewrite (TF_inv2 tb fb) in T4 by exact Ib.
+  destruct T4 as [r [Br Hr]]. destruct T5 as [s [Bs Hs]].
+  exists r, s. split; [exact Br|]. split; [exact Bs|].
+  replace (r - s) with ((r - TFid fc (TFid ta v)) - (s - TFid fc (TFid ta v))) by ring.
+  eapply Rle_trans; [apply Rabs_triang|]. rewrite Rabs_Ropp. lra.
+Qed.
+
+Theorem composition_float_temperature : forall ua ub uc ta fa tb fb tc fc v,
+  u_conv ua = Temperature ta fa -> u_conv ub = Temperature tb fb -> u_conv uc = Temperature tc fc ->
+  inverse_pair ta fa = true -> inverse_pair tb fb = true -> inverse_pair tc fc = true ->
+  finz v -> Rabs (Rv v) <= bpow radix2 1000 ->
+  let r_ab := through_base fl v ua ub in
+  let r_abc := through_base fl r_ab ub uc in
+  let r_ac := through_base fl v ua uc in
+  finz r_abc /\ finz r_ac /\ Rabs (Rv r_abc - Rv r_ac) <= tcomp_bound ta tb tc (Rabs (Rv v)).
+Proof.
+  intros ua ub uc ta fa tb fb tc fc v Ca Cb Cc Ia Ib Ic [Vv Fv] Hv r_ab r_abc r_ac.
+  destruct (temp_comp_chain ta fa tb fb tc fc v (Rv v) (isB_of_valid v Vv Fv) Ia Ib Ic Hv) as [r [s [Br [Bs H]]]].
+  assert (E1 : r_abc = tempfn_apply fl fc (tempfn_apply fl tb (tempfn_apply fl fb (tempfn_apply fl ta v)))).
+  { unfold r_abc, r_ab, through_base, convert_from_base, convert_to_base. rewrite Ca, Cb, Cc. reflexivity. }
+  assert (E2 : r_ac = tempfn_apply fl fc (tempfn_apply fl ta v)).
+  { unfold r_ac, through_base, convert_from_base, convert_to_base. rewrite Ca, Cc. reflexivity. }
+  rewrite E1, E2. split; [exact (isB_valid _ _ Br)|]. split; [exact (isB_valid _ _ Bs)|].
+  rewrite (isB_Rv _ _ Br), (isB_Rv _ _ Bs). exact H.
+Qed.
+
+Lemma tcomp_bound_nonneg ta tb tc a : 0 <= a -> 0 <= tcomp_bound ta tb tc a.
+Proof.
+  intros Ha. unfold tcomp_bound. pose proof u53_lt1.
+  assert (0 <= tcomp_A ta tb tc) by (destruct ta, tb, tc; unfold tcomp_A, tcomp_AZ; lra).
+  assert (0 <= tcomp_B ta tb tc) by (destruct ta, tb, tc; unfold tcomp_B, tcomp_BZ; lra).
+  apply Rmult_le_pos; [apply Rmult_le_pos; lra|]. apply Rplus_le_le_0_compat; [apply Rmult_le_pos|]; assumption.
+Qed.
+Lemma temp_bound_le_tcomp ta fa tb fb a : inverse_pair ta fa = true -> inverse_pair tb fb = true -> 0 <= a ->
+  temp_bound ta tb a <= tcomp_bound ta tb ta a.
+Proof.
+  intros Ia Ib Ha. pose proof u53_lt1. unfold temp_bound, tcomp_bound.
+  apply Rmult_le_compat_l; [apply Rmult_le_pos; lra|].
+  destruct ta, fa; try discriminate Ia; destruct tb, fb; try discriminate Ib;
+    unfold temp_A, temp_B, tcomp_A, tcomp_B, temp_AZ, temp_BZ, tcomp_AZ, tcomp_BZ; lra.
+Qed.
+
+Theorem builtin_composition_temperature : forall a b c ua ub uc ta fa tb fb tc fc v,
+  resolve_unit a = UOk ua -> resolve_unit b = UOk ub -> resolve_unit c = UOk uc ->
+  u_cat ua = u_cat ub -> u_cat ub = u_cat uc ->
+  u_conv ua = Temperature ta fa -> u_conv ub = Temperature tb fb -> u_conv uc = Temperature tc fc ->
+  finz v -> Rabs (Rv v) <= bpow radix2 1000 ->
+  exists r1 r2 r3,
+    builtin_convert (ANum v) (AStr a) (AStr b) = UOk r1 /\
+    builtin_convert (ANum r1) (AStr b) (AStr c) = UOk r2 /\
+    builtin_convert (ANum v) (AStr a) (AStr c) = UOk r3 /\
+    Rabs (Rv r2 - Rv r3) <= tcomp_bound ta tb tc (Rabs (Rv v)).
+Proof.
+  intros a b c ua ub uc ta fa tb fb tc fc v Ra Rb Rc C1 C2 Ca Cb Cc Fv Hv.
+  pose proof (resolve_unit_In _ _ Ra) as Ia. pose proof (resolve_unit_In _ _ Rb) as Ib.
+  pose proof (resolve_unit_In _ _ Rc) as Ic.
+  pose proof (table_inverse_pair _ _ _ Ia Ca) as Pa. pose proof (table_inverse_pair _ _ _ Ib Cb) as Pb.
+  pose proof (table_inverse_pair _ _ _ Ic Cc) as Pc.
+  assert (C3 : u_cat ua = u_cat uc) by congruence.
+  eexists. eexists. eexists. rewrite !builtin_is_convert.
+  rewrite (same_category_converts fl v a b ua ub Ra Rb C1). split; [reflexivity|].
+  rewrite (same_category_converts fl _ b c ub uc Rb Rc C2). split; [reflexivity|].
+  rewrite (same_category_converts fl v a c ua uc Ra Rc C3). split; [reflexivity|].
+  assert (Z0 : forall x, Rabs (x - x) <= tcomp_bound ta tb tc (Rabs (Rv v))).
+  { intros x. replace (x - x) with 0 by ring. rewrite Rabs_R0. apply tcomp_bound_nonneg. apply Rabs_pos. }
+  destruct (same_ids ua ub) eqn:Eab.
+  { apply (same_ids_unit _ _ Ia Ib) in Eab. subst ub. apply Z0. }
+  destruct (same_ids ub uc) eqn:Ebc.
+  { apply (same_ids_unit _ _ Ib Ic) in Ebc. subst uc. rewrite Eab. apply Z0. }
+  destruct (same_ids ua uc) eqn:Eac.
+  { apply (same_ids_unit _ _ Ia Ic) in Eac. subst uc.
+    assert (tc = ta) by congruence. subst tc.
+    destruct (there_and_back_float_temperature ua ub ta fa tb fb v Ca Cb Pa Pb Fv Hv) as [_ H].
+    eapply Rle_trans; [exact H|]. apply (temp_bound_le_tcomp ta fa tb fb); auto. apply Rabs_pos. }
+  apply (composition_float_temperature ua ub uc ta fa tb fb tc fc v Ca Cb Cc Pa Pb Pc Fv Hv).
+Qed.
+
+(* the constant tables as text, for the check to compare with the tolerances it uses (checks/c17.py TEMP_AB / TCOMP_AB) *)
+Definition tf_to_list : list tempfn := [TF_kelvin_to_kelvin; TF_celsius_to_kelvin; TF_fahrenheit_to_kelvin].
+Definition temp_tables : list Z :=
+  flat_map (fun ta => flat_map (fun tb => [temp_AZ ta tb; temp_BZ ta tb]) tf_to_list) tf_to_list.
+Definition tcomp_tables : list Z :=
+  flat_map (fun ta => flat_map (fun tb => flat_map (fun tc => [tcomp_AZ ta tb tc; tcomp_BZ ta tb tc]) tf_to_list) tf_to_list) tf_to_list.
